@@ -128,6 +128,77 @@ func linkedOrderCheck(b Box, st *Stats) *Viol {
 	return nil
 }
 
+// earlierIteratorCheck: the property lists the iterator among the enumerations of the CURRENT keys.
+// An iterator obtained earlier and re-positioned (Begin / End / First / Last) after the container
+// was modified must therefore enumerate the current content in insertion order.  For every state,
+// every earlier position of the iterator and every operation of the alphabet.
+func earlierIteratorCheck(build func() Inst, st *Stats) *Viol {
+	p := tag("C09")
+	b0 := build().(Box)
+	n := len(b0.ExpSeq())
+	for _, o := range b0.Ops() {
+		for k := 0; k <= n+1; k++ {
+			inflightSeq.Add(1)
+			b := build().(Box)
+			it := b.NewIter()
+			for i := 0; i < k; i++ {
+				it.Next()
+			}
+			what := b.Describe(o)
+			if v := safeStep(b, o, nil); v != nil {
+				return v // reported by the ordinary search as well
+			}
+			exp := b.ExpSeq()
+			v := safeCheck(func() *Viol {
+				var fwd, bwd []Pair
+				it.Begin()
+				for it.Next() {
+					a, c := it.Cur()
+					fwd = append(fwd, Pair{a, c})
+					if len(fwd) > len(exp)+2 {
+						break
+					}
+				}
+				it.End()
+				for it.Prev() {
+					a, c := it.Cur()
+					bwd = append(bwd, Pair{a, c})
+					if len(bwd) > len(exp)+2 {
+						break
+					}
+				}
+				ok := len(fwd) == len(exp) && len(bwd) == len(exp)
+				for i := 0; ok && i < len(exp); i++ {
+					ok = pairEq(fwd[i], exp[i]) && pairEq(bwd[len(exp)-1-i], exp[i])
+				}
+				if !ok {
+					return viol(p, "mismatch", "an iterator obtained before %s (moved %d steps), re-positioned afterwards: Begin+Next.. enumerates %v, End+Prev.. enumerates %v, the current content in insertion order is %v", what, k, fwd, bwd, exp)
+				}
+				if f := it.First(); f != (len(exp) > 0) {
+					return viol(p, "mismatch", "an iterator obtained before %s: First() = %v on %d current elements", what, f, len(exp))
+				} else if f {
+					if a, c := it.Cur(); !pairEq(Pair{a, c}, exp[0]) {
+						return viol(p, "mismatch", "an iterator obtained before %s: First() is at %v, the oldest current element is %v", what, Pair{a, c}, exp[0])
+					}
+				}
+				if l := it.Last(); l != (len(exp) > 0) {
+					return viol(p, "mismatch", "an iterator obtained before %s: Last() = %v on %d current elements", what, l, len(exp))
+				} else if l {
+					if a, c := it.Cur(); !pairEq(Pair{a, c}, exp[len(exp)-1]) {
+						return viol(p, "mismatch", "an iterator obtained before %s: Last() is at %v, the newest current element is %v", what, Pair{a, c}, exp[len(exp)-1])
+					}
+				}
+				return nil
+			}, []string{"C09"}, "earlier iterator after a modification")
+			st.Nested["earlier_iterator_cases"]++
+			if v != nil {
+				return v
+			}
+		}
+	}
+	return nil
+}
+
 func strUniverse(u int) []string {
 	var r []string
 	for i := 0; i < u; i++ {
@@ -180,7 +251,10 @@ func init() {
 		}
 		exploreJob(j, r, s, func(e *Explorer) {
 			e.OnState = func(path []Op, build func() Inst, st *Stats) *Viol {
-				return linkedOrderCheck(build().(Box), st)
+				if v := linkedOrderCheck(build().(Box), st); v != nil {
+					return v
+				}
+				return earlierIteratorCheck(build, st)
 			}
 		})
 	}
